@@ -469,6 +469,7 @@ class List(list, base.Symbolic, pg_typing.CustomTyping):
         root_path=utils.KeyPath(idx, self.sym_path),
     )
     if self._value_spec and flags.is_type_check_enabled():
+      value = self._copy_if_placed_elsewhere(idx, value)
       value = self._value_spec.element.apply(
           value,
           allow_partial=allow_partial,
